@@ -43,6 +43,59 @@ theorem pres_stamp (P : Node W → Prop) (st : Node W → Nat → Frame → Fram
     cases h with
     | send hp hk => exact Pres.send hp (fun s' hs' => ih s' (hk s' hs'))
 
+/-! ## 1b. `SoftKeeps` as a decidable condition on the software set -/
+
+theorem swItem_run_pres (P : Node W → Prop) (hP : SwIndep P) (it : SwItem W) (h : it.isConfined = true) (s : Node W) (p : Nat)
+    (f : Frame) (hs : P s) : Pres P (it.run s p f) := by
+  cases it with
+  | confined port r => exact liftSw_pres P hP _ s hs
+  | free port r => cases h
+
+/-- **`SoftKeeps` from a decidable condition on the software set.**  An element whose installed software is confined to the
+software state (`setConfined`: decidable; true of everything a router, firewall, switch or host carries as shipped except
+the Terminal — `C06_gen_shipped_software`), with firmware that writes only the software state, keeps every predicate that
+does not read the software state — in particular "my boundary interfaces are disabled" (`BoundaryDown`), through any
+amount of frame processing and re-entrant traffic.  The hypothesis `SoftKeeps` of the cut theorems remains only for
+user-installed (`free`) software and for the Terminal's command execution (the application-level relay). -/
+theorem C06_softKeeps_of_confined_set (fw : Firmware W) (items : List (SwItem W)) (h : setConfined items = true)
+    (P : Node W → Prop) (hP : SwIndep P) : SoftKeeps (softOf fw items) P := by
+  refine ⟨?_, ?_, ?_, ?_⟩
+  · intro s p f hs
+    simp only [softOf, dispatchSession]
+    split
+    · rename_i it hfind
+      exact swItem_run_pres P hP it (List.all_eq_true.mp h it (List.mem_of_find?_eq_some hfind)) s p f hs
+    · exact Pres.done hs
+  · intro s p f hs; exact liftSw_pres P hP _ s hs
+  · intro s p f hs; exact liftSw_pres P hP _ s hs
+  · intro s p f hs; exact liftSw_pres P hP _ s hs
+
+/-- what the condition excludes: ONE free item (say, a terminal executing `network_interface/2/enable` for whoever logged
+in) and the boundary interface is up again -/
+example : ∃ (items : List (SwItem Unit)) (s : Node Unit) (f : Frame),
+    setConfined items = false ∧ portEnabled s 1 = false ∧
+    ¬ Pres (fun s' => portEnabled s' 1 = false) (dispatchSession items s 0 f) := by
+  refine ⟨[.free 22 (fun s _ _ => .done { s with ifaces := s.ifaces.map (fun i => { i with enabled := true }) })],
+    { exRouter with ifaces := exRouter.ifaces.map (fun i => { i with enabled := false }) },
+    { exPing with pkt := { exPing.pkt with proto := .tcp, ports := some (22, 22) } }, by decide, by decide, ?_⟩
+  intro h
+  simp only [dispatchSession, SwItem.port, List.find?, exPing, beq_self_eq_true, SwItem.run] at h
+  cases h with
+  | done hp => revert hp; decide
+
+/-- the software sets as shipped, and which of their classes are confined: all but the Terminal (its `receive` executes
+commands through the request dispatcher) -/
+theorem C06_gen_shipped_software :
+    Gen.FilterSoft.systemSoftware = shippedSoftware ∧
+    (Gen.FilterSoft.systemSoftware.all fun kc => kc.2.all fun c => c == "Terminal" || confinedClass Gen.FilterSoft.receiveReach c) = true ∧
+    confinedClass Gen.FilterSoft.receiveReach "Terminal" = false := by decide
+
+/-- the source shapes the host / switch / ARP models follow -/
+theorem C06_gen_net_models :
+    Gen.FilterSoft.switchReceive = switchOrder ∧ Gen.FilterSoft.arpPacketSites = arpPacketSites ∧
+    Gen.FilterSoft.arpReplyCallers = arpReplyCallers ∧ Gen.FilterSoft.generateReply = generateReplyShape ∧
+    Gen.FilterSoft.sessionArpBranch = sessionArpBranch ∧ Gen.FilterSoft.hostArpRequest = hostArpRequestOrder := by decide
+
 /-! ## 2. hosts and switches turn class frames into class frames -/
 
 section closure
@@ -662,5 +715,198 @@ example : hostOp (exHost 0x0A00010A#32) (.send () 0 exPing (fun w => .done w)) =
   simp [hostOp, liftSw, stampSends, guardSends, hostStamp, exHost, portEnabled, exPing]
 
 end examples
+
+/-! ## 7. the blocking mechanisms that are "an element that never emits": explicit instances of the cut theorem
+
+A — X — B (`exWire`: A.0—X.0, X.1—B.0).  Which mechanism has which instance:
+  denying ACL (router) ........ `routerDeny` / `routerDenyC`  (examples in Props/C06.lean, `C06_certifiedN_unchanged`)
+  denying firewall rule ....... `fwDeny` / `fwDenyC`
+  router powered off .......... `routerOff` (interfaces may even be enabled)
+  B powered off / NIC disabled  `C06_instance_target_down`   (frozen: B's own state is the one that must not change)
+  device on the path off ...... `C06_instance_path_device_down` (frozen; any kind — C12: not ON ⇒ interfaces disabled)
+  disabled port towards A ..... `C06_instance_path_device_down` (the attacker-facing port is what is disabled)
+  disabled port towards B ..... `C06_instance_port_towards_target_disabled` (ifaceDown; `SoftKeeps` from the confined software set)
+  missing link ................ `C06_instance_missing_link`
+-/
+
+section instances
+
+def sys3 (h : Fin 3 → Node Unit → Nat → Frame → Script Unit) (wire : Fin 3 → Nat → Option (Fin 3 × Nat)) :
+    Sys (Fin 3) Nat Frame (Node Unit) := { handler := h, wire := wire }
+
+/-- A — X — B with the three handlers given -/
+def sysPath (hA hX hB : Node Unit → Nat → Frame → Script Unit) : Sys (Fin 3) Nat Frame (Node Unit) :=
+  sys3 (fun n => if n = 0 then hA else if n = 1 then hX else hB) exWire
+
+theorem exWire_facing2 (p : Nat) (n' : Fin 3) (q : Nat) (h : exWire n' q = some (2, p)) : p = 0 := by
+  match n', q with
+  | 0, 0 => simp [exWire] at h
+  | 0, _ + 1 => simp [exWire] at h
+  | 1, 0 => simp [exWire] at h
+  | 1, 1 => simp [exWire] at h; exact h.symm
+  | 1, _ + 2 => simp [exWire] at h
+  | 2, 0 => simp [exWire] at h
+  | 2, _ + 1 => simp [exWire] at h
+
+theorem exWire_facing1 (p : Nat) (n' : Fin 3) (q : Nat) (hs : n' ≠ 2) (h : exWire n' q = some (1, p)) : p = 0 := by
+  match n', q with
+  | 0, 0 => simp [exWire] at h; exact h.symm
+  | 0, _ + 1 => simp [exWire] at h
+  | 1, 0 => simp [exWire] at h
+  | 1, 1 => simp [exWire] at h
+  | 1, _ + 2 => simp [exWire] at h
+  | 2, _ => exact absurd rfl hs
+
+/-- **B powered off, or B's NIC disabled** (C12: not ON ⇒ interfaces disabled): whatever A and the device X between them do
+— arbitrary handlers, arbitrary operations on both — B's state stays exactly as it was, although X's port towards B is
+enabled and frames do arrive at B's interface. -/
+theorem C06_instance_target_down (hA hX : Node Unit → Nat → Frame → Script Unit) (soft : Soft Unit)
+    (ops : List (Nat × Op (Fin 3) Nat Frame (Node Unit))) (hops : ∀ o ∈ ops, o.2.node ≠ 2)
+    (σ : St (Fin 3) (Node Unit)) (hd : portEnabled (σ 2) 0 = false) :
+    runOps (sysPath hA hX (nodeRx soft)) σ ops 2 = σ 2 := by
+  let role : Fin 3 → Role Unit := fun n => if n = 2 then .frozen soft (σ 2) else .interior
+  apply C06_frozen_unchanged _ (fun _ => true) role ?_ ops ?_ σ ?_ 2 rfl soft (σ 2) (by simp [role])
+  · intro n _
+    match n with
+    | 0 => simp [RoleOK, role]
+    | 1 => simp [RoleOK, role]
+    | 2 => simp [RoleOK, role, sysPath, sys3]
+  · intro o ho
+    have h2 := hops o ho
+    have hr : role o.2.node = .interior := by simp [role, h2]
+    exact C06_safeOp_interior _ _ _ o.2 rfl hr (fun _ _ _ _ => rfl)
+  · intro n _
+    match n with
+    | 0 => simp [inv, role]
+    | 1 => simp [inv, role]
+    | 2 =>
+      simp only [inv, role, if_true, true_and]
+      intro p ⟨n', q, _, hw⟩
+      have := exWire_facing2 p n' q hw
+      subst this; exact hd
+
+/-- **A device on the path powered off / its attacker-facing port disabled** (switch, router, firewall or host; C12: not ON ⇒
+interfaces disabled): X's state and B's state stay exactly as they were, whatever A does and whatever software X carries. -/
+theorem C06_instance_path_device_down (hA hB : Node Unit → Nat → Frame → Script Unit) (soft : Soft Unit)
+    (ops : List (Nat × Op (Fin 3) Nat Frame (Node Unit))) (hops : ∀ o ∈ ops, o.2.node = 0)
+    (σ : St (Fin 3) (Node Unit)) (hd : portEnabled (σ 1) 0 = false) :
+    runOps (sysPath hA (nodeRx soft) hB) σ ops 2 = σ 2 ∧
+    runOps (sysPath hA (nodeRx soft) hB) σ ops 1 = σ 1 := by
+  let role : Fin 3 → Role Unit := fun n => if n = 1 then .frozen soft (σ 1) else .interior
+  have hroles : ∀ n, exSide n = true → RoleOK (sysPath hA (nodeRx soft) hB)
+      exSide role n := by
+    intro n hn
+    match n with
+    | 0 => exact exInterior0
+    | 1 => simp [RoleOK, role, sysPath, sys3]
+    | 2 => simp [exSide] at hn
+  have hops' : ∀ o ∈ ops, SafeOp (sysPath hA (nodeRx soft) hB) exSide
+      (FromSide (sysPath hA (nodeRx soft) hB) exSide) (inv (sysPath hA (nodeRx soft) hB) exSide role) o.2 := by
+    intro o ho
+    have h0 := hops o ho
+    exact C06_safeOp_interior _ _ _ o.2 (by rw [h0]; rfl) (by rw [h0]; rfl) (by rw [h0]; exact exInterior0)
+  have hσ : ∀ n, exSide n = true → inv (sysPath hA (nodeRx soft) hB)
+      exSide role n (σ n) := by
+    intro n hn
+    match n with
+    | 0 => simp [inv, role]
+    | 1 =>
+      simp only [inv, role, if_true, true_and]
+      intro p ⟨n', q, hs, hw⟩
+      have hne : n' ≠ 2 := by intro h; subst h; simp [exSide] at hs
+      have := exWire_facing1 p n' q hne hw
+      subst this; exact hd
+    | 2 => simp [exSide] at hn
+  exact ⟨C06_blocked_unchanged _ exSide role hroles ops hops' σ hσ 2 rfl,
+    C06_frozen_unchanged _ exSide role hroles ops hops' σ hσ 1 rfl soft (σ 1) (by simp [role])⟩
+
+/-- the same wiring with the link X—B never plugged in -/
+def exWireCut : Fin 3 → Nat → Option (Fin 3 × Nat)
+  | 0, 0 => some (1, 0)
+  | 1, 0 => some (0, 0)
+  | _, _ => none
+
+/-- **Missing link**: with no wire between X and B, arbitrary handlers and arbitrary operations on A AND on X leave B alone. -/
+theorem C06_instance_missing_link (h : Fin 3 → Node Unit → Nat → Frame → Script Unit)
+    (ops : List (Nat × Op (Fin 3) Nat Frame (Node Unit))) (hops : ∀ o ∈ ops, o.2.node ≠ 2)
+    (σ : St (Fin 3) (Node Unit)) : runOps (sys3 h exWireCut) σ ops 2 = σ 2 := by
+  have hw : ∀ (n : Fin 3) q m r, n ≠ 2 → exWireCut n q = some (m, r) → exSide m = true := by
+    intro n q m r _ hh
+    match n, q with
+    | 0, 0 => simp [exWireCut] at hh; rw [← hh.1]; rfl
+    | 0, _ + 1 => simp [exWireCut] at hh
+    | 1, 0 => simp [exWireCut] at hh; rw [← hh.1]; rfl
+    | 1, _ + 1 => simp [exWireCut] at hh
+    | 2, _ => simp [exWireCut] at hh
+  apply C06_blocked_unchanged (sys3 h exWireCut) exSide (fun _ => .interior)
+  · intro n hn
+    have hne : n ≠ 2 := by intro h2; subst h2; simp [exSide] at hn
+    exact fun q m r hh => hw n q m r hne hh
+  · intro o ho
+    have h2 := hops o ho
+    have hs : exSide o.2.node = true := by
+      match hn : o.2.node with
+      | 0 => rfl
+      | 1 => rfl
+      | 2 => exact absurd hn h2
+    exact C06_safeOp_interior _ _ _ o.2 hs rfl (fun q m r hh => hw _ q m r h2 hh)
+  · intro n _; simp [inv]
+  · rfl
+
+/-- **A disabled port towards B on a device with only confined software** — e.g. a switch (it carries no software at all:
+`items = []`), or a router / firewall without a logged-in terminal user: `SoftKeeps` is not a hypothesis here, it follows
+from the decidable condition on the software set, for ANY firmware. -/
+theorem C06_instance_port_towards_target_disabled (hA hB : Node Unit → Nat → Frame → Script Unit) (fw : Firmware Unit)
+    (items : List (SwItem Unit)) (hconf : setConfined items = true)
+    (ops : List (Nat × Op (Fin 3) Nat Frame (Node Unit))) (hops : ∀ o ∈ ops, o.2.node = 0)
+    (σ : St (Fin 3) (Node Unit)) (hd : portEnabled (σ 1) 1 = false) :
+    runOps (sysPath hA (nodeRx (softOf fw items)) hB) σ ops 2 = σ 2 := by
+  let sys := sysPath hA (nodeRx (softOf fw items)) hB
+  have hbd : ∀ s : Node Unit, BoundaryDown sys exSide 1 s ↔ portEnabled s 1 = false := by
+    intro s
+    constructor
+    · intro h; exact h 1 2 0 rfl rfl
+    · intro h q m r hw hm
+      match q with
+      | 0 => simp [sys, sysPath, sys3, exWire] at hw; rw [← hw.1] at hm; simp [exSide] at hm
+      | 1 => exact h
+      | _ + 2 => simp [sys, sysPath, sys3, exWire] at hw
+  apply C06_blocked_unchanged sys exSide (exRole (.ifaceDown (softOf fw items)))
+  · intro n hn
+    match n with
+    | 0 => exact exInterior0
+    | 1 =>
+      simp only [RoleOK, exRole, if_true]
+      exact ⟨by simp [sys, sysPath, sys3], C06_softKeeps_of_confined_set fw items hconf _ (fun s x h => boundaryDown_sw sys exSide 1 s x h)⟩
+    | 2 => simp [exSide] at hn
+  · intro o ho
+    have h0 := hops o ho
+    exact C06_safeOp_interior _ _ _ o.2 (by rw [h0]; rfl) (by rw [h0]; rfl) (by rw [h0]; exact exInterior0)
+  · intro n hn
+    match n with
+    | 0 => simp [inv, exRole]
+    | 1 => simp only [inv, exRole, if_true]; exact (hbd _).mpr hd
+    | 2 => simp [exSide] at hn
+  · rfl
+
+end instances
+
+/-- **C06 for a certified scenario whose blocking-by-disabled-interface elements carry confined software**: `hkeep` of
+`C06_certified_unchanged` is discharged by the decidable condition on the software set. -/
+theorem C06_certified_unchanged_confined (t : Topo) (softs : Nat → Soft W) (hInt : Nat → Node W → Nat → Frame → Script W)
+    (fws : Nat → Firmware W) (items : Nat → List (SwItem W)) (σ : St Nat (Node W)) (hc : certify t σ = true)
+    (hsoft : ∀ n, t.side n = true → t.role n = .ifaceDown → softs n = softOf (fws n) (items n) ∧ setConfined (items n) = true)
+    (hnoRouterDeny : ∀ n, t.side n = true → t.role n ≠ .routerDeny)
+    (ops : List (Nat × Op Nat Nat Frame (Node W)))
+    (hops : ∀ o ∈ ops, t.side o.2.node = true ∧ t.role o.2.node = .interior) :
+    ∀ m, (t.side m = false ∨ t.role m = .frozen) → runOps (topoSys t softs hInt) σ ops m = σ m := by
+  apply C06_certified_unchanged t softs hInt σ hc
+  · intro n hn hr
+    obtain ⟨h1, h2⟩ := hsoft n hn hr
+    rw [h1]
+    exact C06_softKeeps_of_confined_set (fws n) (items n) h2 _
+      (fun s x h => boundaryDown_sw (topoSys t (softs) hInt) t.side n s x h)
+  · intro n hn hr; exact absurd hr (hnoRouterDeny n hn)
+  · intro o ho; exact ⟨(hops o ho).1, Or.inl (hops o ho).2⟩
 
 end Primaite.Filter
